@@ -63,6 +63,13 @@ CONST_ARM_TEMPLATES = [f"{{ {_DECL} RdV = ({c} ? {a} : {b}) + {t}; {_OBS} }}"
                        for c in ("0", "1") for c2 in ("0", "1")]
 
 
+# a void sub-routine call whose argument is a value-producing operation: the operation runs at the call
+CONST_ARM_TEMPLATES += ["{ uint32_t t = RsV | 1; set_usr_field(bundle, HEX_REG_FIELD_USR_OVF, clz32(t) & 1); RdV = t; }",
+                        "{ int32_t k = RsV; set_usr_field(bundle, HEX_REG_FIELD_USR_OVF, k++ & 1); RdV = k; }",
+                        "{ int32_t k = RsV; if (RtV) { k = k + 2; set_usr_field(bundle, HEX_REG_FIELD_USR_OVF, clz32(k) & 1); } RdV = k; }",
+                        "{ int32_t k = RsV; for (i = 0; i < 2; i++) { set_usr_field(bundle, HEX_REG_FIELD_USR_OVF, k++ & 1); } RdV = k; }"]
+
+
 def template_worker(texts):
     from .. import boot, diff
     from ..cref import operands_closure
@@ -97,6 +104,45 @@ def template_worker(texts):
     return p.d
 
 
+SWEEP_PROGRAMS = ["{ int32_t i = RsV; RdV = (i++ > 0) ? clz32(i) : 6; ReV = i; }",
+                  "{ int32_t i = RsV; RdV = ((i++ > 0) && (clz32(i) > 3)); ReV = i; }",
+                  "{ int32_t i = RsV; int32_t j = 1; if (i-- > 2) { j = clo32(i); } RdV = j + clz32(i++); ReV = i; }"]
+
+
+def sweep_worker(k, rounds):
+    """temporary numbering is never reset on a Compiler: the same programs are compiled again and again on one fresh
+    compiler so that their pending operations get every number 0 .. ~3*rounds (9|10, 99|100 boundaries included)"""
+    from .. import boot, diff
+    from ..cref import operands_closure
+    from ..il import reader
+    p = run.Part()
+    c = boot.new_compiler()
+    resolver = diff.make_resolver(c)
+    subs = diff.bundled_subs()
+    text = SWEEP_PROGRAMS[k]
+    ast = diff.parse_c(text)
+    states = diff.simple_states(operands_closure(ast, subs), 4, 23)
+    for r_ in range(rounds):
+        p.ev()
+        st, il = progcheck.try_compile(c, text)
+        if st != "ok":
+            p.failure("C06 numbering sweep: compilation raises", {"program": text, "round": r_, "error": il})
+            break
+        nums = sorted({int(x) for x in __import__("re").findall(r"h_tmp(\d+)", il)})
+        body = reader.parse_body(il)
+        for stt in states:
+            r, _ = progcheck.judge_state(ast, body, stt, resolver, subs)
+            if r is None:
+                p.nontriv(("sweep", k, r_, run.h64(stt)))
+                continue
+            if r[0] == "discard":
+                p.discard(r[1])
+                continue
+            p.failure(f"C06 numbering sweep {r[0]}", {"program": text, "round": r_, "temporaries": nums, "state": stt, "detail": r[1], "il": il})
+            return p.d
+    return p.d
+
+
 def run_check(ctx):
     ctx.rule = ("Hypothesis programs with 0..4 hybrids (postfix ++/--, sub-routine calls, statement-expressions) in initialisers, "
                 "assignments, if conditions, loop steps, call arguments, store operands x generated states; non-trivial = distinct "
@@ -107,6 +153,8 @@ def run_check(ctx):
     n, ns = (12000, 8) if ctx.tier == "thorough" else (560, 5)
     progcheck.run_gen(ctx, "C06", BASE | enable, n, ns, depth=2, nest=2, lo=1, hi=4,
                       nontrivial=_nontrivial, classify=_classify, native_all=(ctx.tier == "thorough"))
+    rounds = 400 if ctx.tier == "thorough" else 60
+    run.run_sharded(ctx, sweep_worker, [(k, rounds) for k in range(len(SWEEP_PROGRAMS))], procs=3)
     ctx.extra["const_arm_templates"] = len(CONST_ARM_TEMPLATES)
     run.run_sharded(ctx, template_worker, [(CONST_ARM_TEMPLATES[i::16],) for i in range(16)])
     for c in ("class:hybrid:post", "class:hybrid:call", "class:hybrid:stmtexpr", "class:hybrid in if-condition",
